@@ -48,6 +48,7 @@ def make_decider(cfg):
     dec.verif_boom = Boom()
     dec.subscribe(dec.verif_boom)
     dec.verif_textdata = bool(mode and mode.get("typed"))
+    dec.verif_castraise = (set(mode["cast_ts"]), mode["castexc"]) if mode and mode.get("castexc") else None
     return dec, rec
 
 
@@ -64,7 +65,7 @@ def apply_op(dec, rec, op):
     """op = ("local", event tuple) | ("remote", note dict).  Returns (encoded observation, raw note lists)."""
     n0 = len(rec.calls)
     if op[0] == "local":
-        dec.on_receiver_update(PL.make_event(op[1], getattr(dec, "verif_textdata", False)))
+        dec.on_receiver_update(PL.make_event(op[1], getattr(dec, "verif_textdata", False), getattr(dec, "verif_castraise", None)))
         try:
             dec.update()
         except SubscriberRefused:  # a subscriber refused the change: the caller carries on; the decider's own state
